@@ -3682,6 +3682,67 @@ fn poplar1_families(quick: bool, _seed: u64) -> Vec<Family> {
             })
         }));
     }
+    // ---- context lengths for Prio3 over the other XOF shipped with the library (HMAC-SHA256 + AES128):
+    // its domain-separation tag is limited to 255 bytes, i.e. the context string to 247 bytes
+    {
+        use prio::vdaf::xof::XofHmacSha256Aes128;
+        let ops = ["prio3/shard", "prio3/verify_init", "prio3/verifier_shares_to_message", "prio3/verify_next"];
+        let lens: Vec<(String, usize)> = vec![("7".into(), 7), ("0".into(), 0), ("247".into(), 247), ("248".into(), 248), ("300".into(), 300), ("2^16".into(), 65536)];
+        for (iname, jr) in [("Count<Field64>#hmac,n=2", false), ("Histogram(len=3,chunk=2)<Field128>#hmac,n=2", true)] {
+            let lens = lens.clone();
+            fams.push(fam(&format!("prio3/ctx_len@{iname}"), product(&[ops.len(), lens.len()]), move |t| {
+                let op = ops[t[0] as usize];
+                let (ll, len) = lens[t[1] as usize].clone();
+                prep(op, format!("ctx_len={ll}@{iname}"), json!({"ctx_len": len, "xof": "XofHmacSha256Aes128"}), move |cx| {
+                    let long = vec![0xC7u8; len];
+                    let exp = if len <= 247 { Exp::MustOk } else { Exp::Any };
+                    fn go<T: Type>(cx: &mut Cx, op: &str, typ: T, meas: T::Measurement, long: &[u8], exp: Exp, jr: bool)
+                    {
+                        let Some(vdaf) = cx.ok("setup/new", Exp::MustOk, || Prio3::<T, XofHmacSha256Aes128, 32>::new(2, 1, 0xFFFF_1600, typ)) else { return };
+                        let rand = vec![0x5Au8; 4 * 32];
+                        let short: &[u8] = b"c16";
+                        if op == "prio3/shard" {
+                            cx.outcome.clear();
+                            drop(cx.call("", exp, || vdaf.shard_with_random(long, &meas, &NONCE, &rand[..if jr { 128 } else { 64 }])));
+                            return;
+                        }
+                        // the other steps: an honest report under a short context, then the step under the long one
+                        let ctx0: &[u8] = if op == "prio3/verify_init" { short } else { long };
+                        let Some((ps, shares)) = cx.ok("setup/shard", Exp::Any, || vdaf.shard_with_random(ctx0, &meas, &NONCE, &rand[..if jr { 128 } else { 64 }])) else { return };
+                        if op == "prio3/verify_init" {
+                            cx.outcome.clear();
+                            drop(cx.call("", exp, || vdaf.verify_init(&VK, long, 0, &(), &NONCE, &ps, &shares[0])));
+                            return;
+                        }
+                        let mut sts = vec![];
+                        let mut vss = vec![];
+                        for a in 0..2 {
+                            let Some((st, vs)) = cx.ok("setup/verify_init", Exp::Any, || vdaf.verify_init(&VK, long, a, &(), &NONCE, &ps, &shares[a])) else { return };
+                            sts.push(st);
+                            vss.push(vs);
+                        }
+                        cx.outcome.clear();
+                        if op == "prio3/verifier_shares_to_message" {
+                            drop(cx.call("", exp, || vdaf.verifier_shares_to_message(long, &(), vss)));
+                        } else {
+                            let Some(msg) = cx.ok("setup/verifier_shares_to_message", Exp::Any, || vdaf.verifier_shares_to_message(long, &(), vss)) else { return };
+                            cx.outcome.clear();
+                            drop(cx.call("", exp, || vdaf.verify_next(long, sts.remove(0), msg)));
+                        }
+                    }
+                    if jr {
+                        let typ: Histogram<Field128, ParallelSum<Field128, Mul>> = match Histogram::new(3, 2) {
+                            Ok(t) => t,
+                            Err(_) => return,
+                        };
+                        go(cx, op, typ, 1usize, &long, exp, true);
+                    } else {
+                        go(cx, op, Count::<Field64>::new(), true, &long, exp, false);
+                    }
+                })
+            }));
+        }
+    }
     fams
 }
 fn ctx_lens() -> Vec<(String, usize)> {
